@@ -522,6 +522,14 @@ type Contract struct {
 	IsIface bool
 	// ParamNames: explicit parameter names (function-type contracts)
 	ParamNames []string
+	// InlineCalls: callees executed through their body in this unit
+	InlineCalls []string
+	// ResultContracts: function-valued results that satisfy a named function
+	// contract with the given ghost arguments (`resultcontract r key(args)`)
+	ResultContracts []ResultContract
+	// ImplBind: for a closure implementing a function contract whose parameters
+	// are ghost-bound, the captured variable each parameter stands for
+	ImplBind map[string]Expr
 	// Implements: key of a function-type contract this closure implements
 	Implements string
 	// CbInv: callback invariants over the closure's captured variables
@@ -571,6 +579,17 @@ type ContractSet struct {
 	Lemmas  []*Lemma
 	Files   []string
 	NLines  int
+}
+
+// ResultContract says that a function-valued result, when non-nil, behaves as
+// the function contract Key with its (ghost) parameters bound to Args.
+type ResultContract struct {
+	Result string
+	Key    string
+	Args   []Expr
+	Src    string
+	Line   int
+	File   string
 }
 
 type Lemma struct {
@@ -878,6 +897,43 @@ func (cs *ContractSet) loadFile(path string) error {
 			}
 		case "implements":
 			cur.Implements = rest
+		case "inlinecall":
+			cur.InlineCalls = append(cur.InlineCalls, rest)
+		case "resultcontract":
+			// resultcontract <result> <key>(<args>)
+			if len(fields) < 3 {
+				return fail(i, "malformed resultcontract")
+			}
+			spec := strings.TrimSpace(strings.TrimPrefix(strings.TrimSpace(rest), fields[1]))
+			op := strings.Index(spec, "(")
+			if op < 0 || !strings.HasSuffix(spec, ")") {
+				return fail(i, "malformed resultcontract (want: resultcontract <result> <key>(<args>))")
+			}
+			rc := ResultContract{Result: fields[1], Key: strings.TrimSpace(spec[:op]), Src: rest, Line: i + 1, File: path}
+			for _, part := range splitTop(spec[op+1 : len(spec)-1]) {
+				if part == "" {
+					continue
+				}
+				ae, err := ParseExpr(part)
+				if err != nil {
+					return fail(i, "%v", err)
+				}
+				rc.Args = append(rc.Args, ae)
+			}
+			cur.ResultContracts = append(cur.ResultContracts, rc)
+		case "implbind":
+			eq := strings.Index(rest, "=")
+			if eq < 0 {
+				return fail(i, "malformed implbind (want: implbind <param> = <expr>)")
+			}
+			be, err := ParseExpr(strings.TrimSpace(rest[eq+1:]))
+			if err != nil {
+				return fail(i, "%v", err)
+			}
+			if cur.ImplBind == nil {
+				cur.ImplBind = map[string]Expr{}
+			}
+			cur.ImplBind[strings.TrimSpace(rest[:eq])] = be
 		case "cbinv":
 			if err := finishClause(i); err != nil {
 				return err
@@ -959,7 +1015,7 @@ func (cs *ContractSet) loadFile(path string) error {
 			lastClause.Src += " " + body
 		}
 		if kw != "assigns" {
-			if _, isKw := map[string]bool{"props": true, "requires": true, "ensures": true, "tryensures": true, "alloc_bound": true, "site": true, "loop": true, "inline": true, "pure": true, "trusted": true, "noverify": true, "may_panic": true, "callback": true, "ghostparam": true, "implements": true, "cbinv": true, "ghostset": true, "ghostinit": true, "ghostarg": true}[kw]; isKw {
+			if _, isKw := map[string]bool{"props": true, "requires": true, "ensures": true, "tryensures": true, "alloc_bound": true, "site": true, "loop": true, "inline": true, "pure": true, "trusted": true, "noverify": true, "may_panic": true, "callback": true, "ghostparam": true, "implements": true, "inlinecall": true, "resultcontract": true, "implbind": true, "cbinv": true, "ghostset": true, "ghostinit": true, "ghostarg": true}[kw]; isKw {
 				inAssigns = false
 			}
 		}
